@@ -39,7 +39,7 @@ func allocated() uint64 {
 	return allocSample[0].Value.Uint64()
 }
 
-var dlTypes = registry.DecodingLayers()
+var dlTypes = registry.ByteDecoders()
 var dlByName = func() map[string]registry.Type {
 	m := map[string]registry.Type{}
 	for _, t := range dlTypes {
@@ -56,7 +56,9 @@ func coreLayers() []gopacket.DecodingLayer {
 func allLayers() []gopacket.DecodingLayer {
 	var out []gopacket.DecodingLayer
 	for _, t := range dlTypes {
-		out = append(out, t.New().(gopacket.DecodingLayer))
+		if dl, ok := t.New().(gopacket.DecodingLayer); ok {
+			out = append(out, dl)
+		}
 	}
 	return out
 }
@@ -80,14 +82,16 @@ func runCase1(c *Case) (f *vh.Failure, res result) {
 			if !ok {
 				return // type no longer exists in the tree under test
 			}
-			dl := t.New().(gopacket.DecodingLayer)
-			err := dl.DecodeFromBytes(c.Data, gopacket.NilDecodeFeedback)
+			bd := t.New().(registry.ByteDecoder)
+			err := bd.DecodeFromBytes(c.Data, gopacket.NilDecodeFeedback)
 			if err == nil {
 				res.progressed = true
-				// what a layer parser calls next
-				_ = dl.NextLayerType()
-				_ = dl.LayerPayload()
-				_ = dl.CanDecode()
+				if dl, ok := bd.(gopacket.DecodingLayer); ok {
+					// what a layer parser calls next
+					_ = dl.NextLayerType()
+					_ = dl.LayerPayload()
+					_ = dl.CanDecode()
+				}
 			}
 		case "packet":
 			p := gopacket.NewPacket(c.Data, gopacket.LayerType(c.LT), gopacket.DecodeOptions{SkipDecodeRecovery: true, Lazy: c.Lazy, DecodeStreamsAsDatagrams: c.Streams})
